@@ -191,7 +191,7 @@ pub fn check(ctx: &mut Ctx) {
         "no 64-bit seahash collision inside a case".into(),
         "tag+redirect / tag+removeparam / tag+generichide are documented as unsupported and not generated".into(),
     ];
-    let n = ctx.tier.pick(250_000, 2_500_000);
+    let n = ctx.tier.pick(200_000, 2_000_000);
     drive(ctx, "std", n, 600, &decode, &check_case);
     let n = ctx.tier.pick(8_000, 100_000);
     drive(ctx, "big", n, 4000, &decode_big, &check_case);
